@@ -138,5 +138,9 @@ Fixpoint ans_wf (ans : list bool) : bool :=
 Definition c_barrier_bt (step ainit aout : float) (ans : list bool) : N :=
   let n := length ans in
   if ans_wf ans && Nat.leb n 50 && (Nat.eqb n 50 || last ans false)
-     && fsame aout (bt_gen PrimFloat.mul 50 ans step ainit)
+     && (let mdl := bt_gen PrimFloat.mul 50 ans step ainit in
+         (* equal up to the rounding of at most 50 multiplications (relative 2^-40): the
+            code may form step^k in another order *)
+         fsame aout mdl
+         || PrimFloat.leb (PrimFloat.abs (PrimFloat.sub aout mdl)) (PrimFloat.mul (PrimFloat.abs mdl) 0x1p-40%float))
   then 0%N else 1%N.
